@@ -691,8 +691,10 @@ def resolveXVals (reg : Registry) (m : Mod) : Res Mod :=
 
 /-- `SemanticState::build` -/
 def State.build (s : State) (prio : List Path) : BuildOutcome :=
+  -- every round that continues resolves an item or registers a generated vftable item (at most one
+  -- per unresolved type), so `2 * unresolved + 2` rounds are always enough
   let nItems := (s.reg.types.filter fun e => !e.2.isResolved).length
-  match resolveLoop prio (nItems + 2) s with
+  match resolveLoop prio (2 * nItems + 2) s with
   | .ok s1 =>
     match Res.mapM' (fun (e : Path × Mod) =>
         match resolveXVals s1.reg e.2 with
